@@ -10,7 +10,7 @@ const SPEC: Spec = Spec {
         "refint two's complement (sign extension to max(len)+1 limbs) is trusted; cross-checked against Python on a transcript slice",
         "shift amounts that would exhaust memory are out of scope (property text); << is exercised with each type's MAX only when it is <= 65535 or the value is zero",
     ],
-    bounds_quick: "B1 (+-Dense(S5,3))^2 + (+-Dense(S5,4)) x (+-Dense(S5,2)) both orders; B2 (+-Runs({0,1,M},3,8))^2; B3 +-Dense(S5,3) x 33 amounts (incl. each type's MAX and negative amounts) x 12 types + every amount 0..=200 for u32/i64/u128; B4 +-Dense(S5,4) x indices 0..=330,2^32,2^40 x {bit,set,clear}; B6 long values of 300 and 1100 digits (4 shapes, both signs): all pairs through & | ^, shifts by digit-aligned / huge amounts, bit queries",
+    bounds_quick: "B1 (+-Dense(S5,3))^2 + (+-Dense(S5,4)) x (+-Dense(S5,2)) both orders; B2 (+-Runs({0,1,M},3,8))^2; B3 +-Dense(S5,3) x 33 amounts (incl. each type's MAX and negative amounts) x 12 types + every amount 0..=200 for u32/i64/u128; B4 +-Dense(S5,4) x indices 0..=330,2^32,2^40 x {bit,set,clear}; B6 long values of 300 and 1100 digits (4 shapes, both signs): all pairs through & | ^, shifts by digit-aligned / huge amounts, bit queries; B7 (+-Dense(S16,2))^2 (16-letter half-digit alphabet)",
     bounds_thorough: "B1 additionally (+-Dense(S5,4))^2 and 4x3 / 3x4; B2 (+-Runs({0,1,M},3,12))^2; B3 every amount 0..=520; B4 indices 0..=400; B6 up to 4099 digits",
     hang_secs: 120,
     probes: None,
@@ -388,6 +388,11 @@ fn body(ctx: &mut Ctx) {
                 }
             }
         }
+    }
+    // B7: half-digit value structure
+    {
+        let h2 = signed(&alpha::dense(&alpha::SIGMA16, 2));
+        pairs(ctx, "B7", &h2, &h2);
     }
     // B6: long values (more than a thousand digits): logic, shifts by large and digit-aligned amounts, bit queries near the top
     if ctx.space("B6") {
